@@ -321,6 +321,12 @@ macro_rules! gen_builder {
               .on_error_map(inf)
               .box_it()
           }
+          Src::IntervalAtUs(at, p) => {
+            interval_at(instant_at(cx.base, *at), Duration::from_micros(*p), cx.sched.clone())
+              .map(|i: usize| V::I(i as i64))
+              .on_error_map(inf)
+              .box_it()
+          }
           Src::Timer(..) | Src::TimerUs(..) | Src::TimerAt(..) => $timer!(s, cx, $B),
           Src::Future(id, s) => {
             from_future(ItemFuture(SStream::new(*id, s.clone(), &log)), cx.sched.clone())
